@@ -28,15 +28,27 @@ RULE = (
 EXPLANATION = "exhaustive bounded enumeration of the annotated? x traced? x strategy matrix against the real stub builder"
 ASSUMPTIONS = ["the IGNORE / annotated / untraced cell is left open by the property (source annotation or nothing accepted)", "a traced type on a None-default parameter may be shown as Optional[T]"]
 
-ANN_KINDS = ["class", "generic", "optional", "string", "newtype"]
-ANN_SRC = {"class": "int", "generic": "List[int]", "optional": "Optional[int]", "string": "'int'", "newtype": "UserId"}
+ANN_KINDS = ["class", "generic", "optional", "string", "newtype", "rewritable"]
+ANN_SRC = {"class": "int", "generic": "List[int]", "optional": "Optional[int]", "string": "'int'", "newtype": "UserId", "rewritable": "Union[Dict[str, int], Dict[str, str]]"}
 RESULT_KINDS = ["ret", "yield", "yield+ret", "yield+none", "exc"]
 FKINDS = ["function", "method", "classmethod", "function_selfname", "static_clsname"]
 T_PARAM, T_RET, T_YIELD = str, bytes, float
 
 
+class _FalsyMeta(type):
+    def __len__(cls):
+        return 0
+
+
+class FalsyClass(metaclass=_FalsyMeta):
+    """A perfectly good class that happens to be falsy (plugin-registry style metaclass with __len__)."""
+
+
 def ann_obj(kind: str, mod) -> Any:
-    return {"class": int, "generic": List[int], "optional": Optional[int], "string": int, "newtype": mod.UserId}[kind]
+    from typing import Dict as _D
+    from typing import Union as _U
+
+    return {"class": int, "generic": List[int], "optional": Optional[int], "string": int, "newtype": mod.UserId, "rewritable": _U[_D[str, int], _D[str, str]]}[kind]
 
 
 def param_lists(tier: str) -> List[Tuple[G.Param, ...]]:
@@ -50,7 +62,7 @@ def gen_module(pl: Tuple[G.Param, ...], akind: str) -> Tuple[str, List[Dict[str,
     """All annotated subsets x function kinds (x receiver annotated?) for one parameter list and annotation kind."""
     n = len(pl)
     names = G.SHORT[:n]
-    lines = ["from typing import List, NewType, Optional, Type", "", "UserId = NewType('UserId', int)", f"_AKIND = {akind!r}", ""]
+    lines = ["from typing import Dict, List, NewType, Optional, Type, Union", "", "UserId = NewType('UserId', int)", f"_AKIND = {akind!r}", ""]
     metas: List[Dict[str, Any]] = []
     cls_lines: List[str] = ["class C1:", "    pass", ""]
     fid = 0
@@ -102,12 +114,14 @@ def make_traces(mod, metas, traced_mask: int, rk: str):
 
     out = []
     for m in metas:
-        arg_types = {nm: T_PARAM for i, nm in enumerate(m["names"]) if traced_mask & (1 << i)}
+        arg_types = {nm: (T_PARAM if (i + traced_mask) % 3 else FalsyClass) for i, nm in enumerate(m["names"]) if traced_mask & (1 << i)}
         if m["recv"]:
             arg_types[m["recv"]] = mod.C1 if m["recv"] == "self" else Type_of(mod.C1)
         ret = {"ret": T_RET, "yield": None, "yield+ret": T_RET, "yield+none": O.NoneType, "exc": None}[rk]
         yld = None if rk in ("ret", "exc") else T_YIELD
         out.append(CallTrace(live(mod, m), arg_types, ret, yld))
+        if rk != "exc":
+            out.append(CallTrace(live(mod, m), dict(arg_types), None, None))   # the same call once ended with an exception
     return out
 
 
@@ -162,7 +176,7 @@ def check_stub(text: str, mod, metas, strategy: str, traced_mask: int, rk: str, 
         fi = fis[0]
         positions: List[Tuple[str, bool, bool, Any, Any, bool]] = []
         for i, nm in enumerate(m["names"]):
-            positions.append((nm, i in m["ann"], bool(traced_mask & (1 << i)), A, T_PARAM, m["params"][i][1] == "None"))
+            positions.append((nm, i in m["ann"], bool(traced_mask & (1 << i)), A, (T_PARAM if (i + traced_mask) % 3 else FalsyClass), m["params"][i][1] == "None"))
         tr = traced_return(rk)
         positions.append(("return", m["ret_ann"], tr is not None, A, tr, False))
         if m["recv"]:
@@ -233,7 +247,7 @@ def run_module(res: Result, ctx: Ctx, mi: int, pl, akind: str, srcdir: Path, onl
         if res.states % 3001 == 1:
             res.sample({"params": G.render_params(pl, G.SHORT[:n]), "annotation_kind": akind, "strategy": s, "traced_mask": tm, "result": rk, "stub_head": text[:300]})
     # CLI flags must select the same strategies (one combination per module)
-    if only is None and mi % 9 == 0:
+    if only is None and (mi % 9 == 0 or (akind == "rewritable" and mi % 4 == 1)):
         cli_crosscheck(res, ctx, mod, modname, metas, n, mi, srcdir)
     del sys.modules[modname]
 
@@ -248,7 +262,7 @@ def cli_crosscheck(res: Result, ctx: Ctx, mod, modname: str, metas, n: int, mi: 
     S = strategies()
     tm, rk = (2 ** n) - 1, RESULT_KINDS[mi % len(RESULT_KINDS)]
     db = str(srcdir / f"{modname}.sqlite3")
-    mcfg.reset(db=db, rewriter=NoOpRewriter())
+    mcfg.reset(db=db, rewriter="default" if (mi % 2 == 0 or mcfg_akind(metas, mod) == "rewritable") else NoOpRewriter())
     traces = make_traces(mod, metas, tm, rk)
     mcfg.CONFIG.trace_store().add(traces)
     for s, flags in (("REPLICATE", []), ("OMIT", ["--omit-existing-annotations"]), ("IGNORE", ["--ignore-existing-annotations"])):
